@@ -51,6 +51,7 @@ pub use common::{
     merge_extents,
     sync,
 };
+pub use common::is_dir_checked;
 pub use errors::Error;
 
 /// Flag whether the current OS support
